@@ -360,6 +360,10 @@ def plan(s):
     for op in s["ops"]:
         if op[0] == "reload":
             add(op[1], op[2], op[3] if len(op) > 3 else "ok")
+    for lst in vers.values():
+        for x in lst:
+            if x["mode"] == "cut" and x["blen"] < 2:      # nothing to cut: such a response is complete
+                x["mode"], x["ok"] = "ok", True
     s["_plan"] = {str(u): l for u, l in vers.items()}
     return s["_plan"]
 
@@ -552,7 +556,10 @@ def run_one(s):
 
 
 def run_impl(L, scenarios):
+    t0 = time.time()
     setup(L)
+    _state.setdefault("timing", []).append("setup %.1fs" % (time.time() - t0))
+    t0 = time.time()
     with concurrent.futures.ThreadPoolExecutor(max_workers=int(os.environ.get("VERIF_C10_PAR", "8"))) as ex:
         out = list(ex.map(run_one, scenarios))
     bad = []
@@ -564,6 +571,7 @@ def run_impl(L, scenarios):
             if h:
                 bad.append(store + ":" + ",".join(h))
     _state["bad"] = bad
+    _state["timing"].append("%d scenarios %.1fs" % (len(scenarios), time.time() - t0))
     return out
 
 
@@ -720,8 +728,9 @@ def run(res, tier):
         std.run_lab(res, PID, tier, area="hits", gens=["hits", "hitspage"], gen_scenarios=gen_scenarios,
                     run_impl=run_impl, to_case=to_case, oracle=oracle,
                     corr_name="HitsModel (store machine, stored format) vs the running squid",
-                    n_quick=int(os.environ.get("VERIF_C10_N", "70")), n_thorough=2500, seed_salt=10,
+                    n_quick=int(os.environ.get("VERIF_C10_N", "50")), n_thorough=2500, seed_salt=10,
                     kind_fn=kind_fn, nontrivial_fn=lambda s, o: bool(s.get("_nh")))
+        res.extra["lab_timing"] = _state.get("timing")
         if _state.get("bad"):
             res.fail("oracle:squid-died", "a squid instance died or logged an assertion during the C10 run: %s"
                      % ", ".join(_state["bad"]), {"instances": _state["bad"]})
